@@ -1747,6 +1747,10 @@ func (t *itype) lookupField(name string) []int {
 			}
 
 			for i, f := range typ.field {
+				if tias && !f.embed {
+					// Only the fields of an embedded field are promoted.
+					continue
+				}
 				switch f.typ.cat {
 				case ptrT, structT, interfaceT, linkedT:
 					if tias != isStruct(f.typ) {
